@@ -75,7 +75,12 @@ pub struct Verdict {
 
 /// Judges one token sequence rendered as `src`. Returns the classification and, if it built, the tree.
 pub fn judge(out: &mut Out, toks: &[Tok], src: &str, want: Want, prop_rule_prefix: &str) -> Verdict {
-    let (class, ast) = classify(toks);
+    let (mut class, ast) = classify(toks);
+    // a word the documentation does not define (integer outside the 64-bit range, float overflowing to infinity) makes
+    // the whole sequence unclaimed: the reference treats it as an identifier, which it need not be
+    if toks.iter().any(|t| matches!(t, Tok::Ident(w) if crate::refmodel::lex::classify_word(w) == crate::refmodel::lex::WordClass::Unclaimed)) {
+        class = Class::Unclaimed("word outside the documented literal forms");
+    }
     let built = api::build(src);
     out.eval();
     match &class {
